@@ -29,8 +29,28 @@ Record wf (r : registry) : Prop := {
   wf_contents : forall p c, In c (contents_of r p) -> valid r c /\ parent_of r c = Some p;
   wf_roots : forall o, In o (r_roots r) -> valid r o /\ parent_of r o = None /\ own_page r o = true;
   wf_parent_own : forall c p, parent_of r c = Some p -> own_page r p = true;   (* only modules, packages and classes contain objects *)
-  wf_module_own : forall c m, module_of r c = Some m -> own_page r m = true
+  wf_module_own : forall c m, module_of r c = Some m -> own_page r m = true;
+  wf_module_reach : forall c m, module_of r c = Some m -> reachable r m      (* parentMod is a module of the tree *)
 }.
+
+(* a is c or one of its (transitive) in-system bases *)
+Inductive base_star (r : registry) : nat -> nat -> Prop :=
+| bs_refl : forall c, base_star r c c
+| bs_step : forall a b c, In (Some b) (bases_of r c) -> base_star r a b -> base_star r a c.
+
+(* the class relations of a registry as System.defaultPostProcess leaves them; `rank` witnesses that inheritance
+   has no cycle *)
+Record wf_classes (r : registry) (rank : nat -> nat) : Prop := {
+  wc_subclass : forall c b, In (Some b) (bases_of r c) ->
+                  In c (subclasses_of r b) /\ is_class_kind (kind_of r b) = true;   (* b.subclasses.append(cls) *)
+  wc_registered : forall c, valid r c -> is_class_kind (kind_of r c) = true -> In c (r_all r);
+  wc_rank : forall c b, In (Some b) (bases_of r c) -> rank b < rank c;
+  wc_rank_bound : forall c, rank c < length (r_objs r)
+}.
+
+(* neither the name nor the full name carries the ' N' suffix of a superseded duplicate *)
+Definition plain_name (r : registry) (c : nat) : Prop :=
+  has_space (name_of r c) = false /\ has_space (fullname r c) = false.
 
 (* no superseded duplicates / collision leftovers: everything registered is reachable through contents *)
 Definition all_reachable (r : registry) : Prop := forall o, valid r o -> reachable r o.
@@ -42,22 +62,32 @@ Definition live_at (quote : text -> text) (tbl : table) (r : registry) (cur href
   forall a, snd (resolve cur href) = Some a ->
     exists n, In (fst (resolve cur href), n) (site_anchors quote tbl r) /\ (a = n \/ a = quote n).
 
+(* the docstring shown for i comes from an object documented on the same page as i (i itself, or a member of the same
+   class/module): exactly when format_docstring hands taglink the page the docstring is rendered on *)
+Definition same_page_source (r : registry) (i : nat) : Prop :=
+  match docsource_of r i with Some s => page_obj r s = page_obj r i | None => True end.
+
+(* the cross-reference entry e stands on the page of p, in the docstring rendered for i (p itself or a member of p) *)
+Definition xref_from (quote : text -> text) (tbl : table) (r : registry) (e : entry) (p i : nat) : Prop :=
+  In p (written tbl r) /\ (i = p \/ In i (methods_of tbl r p)) /\ e_page e = url quote r p /\
+  e_ctx e = doc_ctx quote r (url quote r p) i /\ In (e_obj e) (xrefs_of r i).
+
 (* producers whose entries list objects picked by iterating a collection (rows, items, index and search entries);
    the others (heading, sidebar title, base name, class signature, overrides) name objects found by resolution *)
 Definition listing_prod (p : N) : bool :=
-  existsb (N.eqb p) [P_sidebar_item; P_main_table; P_pkginit; P_base_table; P_childlist; P_known_subclasses;
+  existsb (N.eqb p) [P_sidebar_item; P_sidebar_inherited; P_main_table; P_pkginit; P_base_table; P_childlist; P_known_subclasses;
                      P_overridden_in; P_hierarchy; P_module_index; P_class_index; P_name_index; P_undocced;
                      P_index_roots; P_alldocs; P_corpus; P_inventory].
 Definition root_prod (p : N) : bool := N.eqb p P_module_index || N.eqb p P_index_roots.
 
-(* producers whose targets are picked from the contents of a written page object, from system.rootobjects, or by
-   recursion through contents: reachable by construction *)
+(* producers whose targets are picked from the contents of a written page object (member tables, the direct items of
+   the sidebar at every expand depth), from system.rootobjects, or by recursion through contents: reachable by construction *)
 Definition contents_prod (p : N) : bool :=
-  existsb (N.eqb p) [P_main_table; P_pkginit; P_module_index; P_index_roots; P_inventory].
+  existsb (N.eqb p) [P_sidebar_item; P_main_table; P_pkginit; P_module_index; P_index_roots; P_inventory].
 
 (* producers whose href is not built by linker.taglink *)
 Definition raw_prod (p : N) : bool := existsb (N.eqb p) [P_hierarchy; P_childlist; P_alldocs; P_corpus; P_inventory].
 
 (* producers named by C12: member tables, member details, sidebar, module index, search documents *)
 Definition marked_prod (p : N) : bool :=
-  existsb (N.eqb p) [P_sidebar_item; P_main_table; P_pkginit; P_base_table; P_childlist; P_module_index; P_alldocs].
+  existsb (N.eqb p) [P_sidebar_item; P_sidebar_inherited; P_main_table; P_pkginit; P_base_table; P_childlist; P_module_index; P_alldocs].
